@@ -21,3 +21,12 @@ PROPS["C19"] = dict(
     assumptions=["float64 exact on D (see trusted_base)", "one Nextafter step leaves the grid (no two grid values are adjacent floats)"],
     partial=[],
 )
+
+PROPS["C18"] = dict(
+    streams=["C18"],
+    kernel_cases=300,
+    rule="exhaustive: every vertex sequence of length 0..4 (thorough 0..5) on {0..3}^2, closed and open; structured random rings (convex hulls, single-dent, collinear midpoint, duplicated vertex, raw sequences) in all rotations, both directions, with/without closing vertex, grids 2^-s, |k| up to 2^22; long series up to 2000 points inside the shoelace exactness bound; non-trivial = at least 3 points; distinct = distinct case lines",
+    trusted_base=COMMON_TB,
+    assumptions=["float64 exact on D incl. the shoelace bound n*2^(2b+2) < 2^53"],
+    partial=[],
+)
